@@ -869,12 +869,15 @@ class LTLayoutContainer(LTContainer[LTComponent]):
             objs = set(plane.find((x0, y0, x1, y1)))
             return objs.difference((obj1, obj2))
 
+        # equal distances are ordered by creation order of the objects, not
+        # by their memory addresses, so that the result is reproducible
+        serial: Dict[int, int] = {id(box): i for (i, box) in enumerate(boxes)}
         dists: List[Tuple[bool, float, int, int, ElementT, ElementT]] = []
         for i in range(len(boxes)):
             box1 = boxes[i]
             for j in range(i + 1, len(boxes)):
                 box2 = boxes[j]
-                dists.append((False, dist(box1, box2), id(box1), id(box2), box1, box2))
+                dists.append((False, dist(box1, box2), i, j, box1, box2))
         heapq.heapify(dists)
 
         plane.extend(boxes)
@@ -897,10 +900,18 @@ class LTLayoutContainer(LTContainer[LTComponent]):
                 plane.remove(obj2)
                 done.update([id1, id2])
 
+                serial[id(group)] = len(serial)
                 for other in plane:
                     heapq.heappush(
                         dists,
-                        (False, dist(group, other), id(group), id(other), group, other),
+                        (
+                            False,
+                            dist(group, other),
+                            serial[id(group)],
+                            serial[id(other)],
+                            group,
+                            other,
+                        ),
                     )
                 plane.add(group)
         # By now only groups are in the plane
